@@ -82,7 +82,7 @@ def cases(draw):
     cands = []
     for _ in range(draw(st.integers(8, 28))):
         kind = draw(st.sampled_from(["same", "same", "base-changed", "index-changed", "scale-changed", "disp-changed", "disp-changed", "disp-dropped", "disp-added",
-                                     "index-dropped", "index-added", "swapped", "register", "immediate", "other-position", "base-dropped"]))
+                                     "index-dropped", "index-added", "swapped", "register", "immediate", "other-position", "base-dropped", "riz-index"]))
         c = dict(ref)
         c["pos"] = pos
         if kind == "base-changed" and not rip:
@@ -108,6 +108,11 @@ def cases(draw):
             c["base"], c["index"] = c["index"], c["base"]
         elif kind == "base-dropped" and c["index"] is not None and not rip:
             c["base"] = None
+        elif kind == "riz-index" and not rip and c["base"] is not None and (c["base"] & 7) != 4:
+            # the rule's operand without index, encoded with a SIB byte all the same: objdump prints the pseudo index %riz / %eiz
+            c["index"] = None
+            c["riz"] = True
+            c["scale"] = draw(st.sampled_from([1, 2, 4, 8]))
         elif kind == "other-position":
             c["pos"] = 3 - pos
         elif kind in ("register", "immediate"):
@@ -128,7 +133,7 @@ def cand_att(c, addr32):
     if "special" in c:
         other = f"$0x{c['imm']:x}" if c["special"] == "immediate" else "%" + x86enc.REG64[(c["reg"] + 3) % 16]
         return [other, reg]
-    a, b, sc, k = x86enc.att_mem(c["base"], c["index"], c["scale"], c["disp"], addr32, c["rip"])
+    a, b, sc, k = x86enc.att_mem(c["base"], c["index"], c["scale"], c["disp"], addr32, c["rip"], riz=c.get("riz", False))
     mem = (k or "") + "(" + (a or "") + (f",{b},{sc}" if b else "") + ")"
     return [mem, reg] if c["pos"] == 1 else [reg, mem]
 
@@ -141,7 +146,7 @@ def cand_bytes(c, addr32):
         r, s = c["reg"], (c["reg"] + 3) % 16
         return bytes([0x48 | ((s >> 3) << 2) | (r >> 3), 0x89, 0xC0 | ((s & 7) << 3) | (r & 7)])
     op = "mov-load" if c["pos"] == 1 else "mov-store"
-    return x86enc.encode_mem(op, c["reg"], base=c["base"], index=c["index"], scale=c["scale"], disp=c["disp"], addr32=addr32 and not c["rip"], rip=c["rip"])
+    return x86enc.encode_mem(op, c["reg"], base=c["base"], index=c["index"], scale=c["scale"], disp=c["disp"], addr32=addr32 and not c["rip"], rip=c["rip"], riz=c.get("riz", False))
 
 
 def evaluate(case):
@@ -159,7 +164,7 @@ def evaluate(case):
         a = 0x401000
         for c in case["cands"]:
             att = cand_att(c, addr32)
-            norm = [normal_form(o) for o in att]
+            norm = [normal_form(o, pseudo_index=True) for o in att]
             if any(n is None for n in norm):
                 continue
             lines.append(inst_line(format(a, "x"), "mov", att))
@@ -177,7 +182,7 @@ def evaluate(case):
                 continue
             toks = [t for t in c[2].split("#")[0].split(" ") if t]
             ops = split_operands(toks[1]) if len(toks) > 1 else []
-            norm = [normal_form(o) for o in ops]
+            norm = [normal_form(o, pseudo_index=True) for o in ops]
             if any(n is None for n in norm):
                 ev.tags.append("unspec-operand")
                 return ev
